@@ -183,11 +183,37 @@ func decide(ob *Obligation, script string, cfg *SolverCfg) *ObResult {
 		}
 		return res
 	}
-	// stage 1
-	v, out, secs := runSolver(context.Background(), "z3-new", script, cfg.QuickTimeout, cfg.Seed, false)
-	if v == "unsat" || v == "sat" {
-		return finish(v, "z3-new", out, secs)
+	// stage 1: z3-new and cvc5 side by side (each is the only prover of a sizeable class of obligations); the first
+	// definite answer wins
+	type r1 struct {
+		v, solver, out string
+		secs           float64
 	}
+	ctx1, cancel1 := context.WithCancel(context.Background())
+	ch1 := make(chan r1, 2)
+	for _, sv := range []string{"z3-new", "cvc5"} {
+		go func(sv string) {
+			v, o, s := runSolver(ctx1, sv, script, cfg.QuickTimeout, cfg.Seed, false)
+			ch1 <- r1{v, sv, o, s}
+		}(sv)
+	}
+	var v, out string
+	var secs float64
+	for k := 0; k < 2; k++ {
+		x := <-ch1
+		if x.v == "unsat" || x.v == "sat" {
+			cancel1()
+			return finish(x.v, x.solver, x.out, x.secs)
+		}
+		if x.solver == "z3-new" {
+			v, out = x.v, x.out
+		}
+		if x.secs > secs {
+			secs = x.secs
+		}
+	}
+	cancel1()
+	_ = v
 	if ob.Cover {
 		// unknown is acceptable for a cover (not shown vacuous)
 		return finish("unknown", "z3-new", out, secs)
